@@ -137,7 +137,7 @@ impl Monitor for C01Monitor
 
 pub fn strategy(max_rules: usize, max_ops: usize) -> impl Strategy<Value = HistoryCase>
 {
-    (gen::graph_spec(max_rules, true), gen::ops(OpMix::full(), max_ops), prop_oneof![1 => Just(0u16), 1 => any::<u16>()])
+    (gen::graph_spec_ext(max_rules, true, true), gen::ops(OpMix::full(), max_ops), prop_oneof![1 => Just(0u16), 1 => any::<u16>()])
         .prop_map(|(graph, ops, sched_seed)| HistoryCase { graph, ops, sched_seed })
 }
 
